@@ -822,5 +822,105 @@ Example disk_example :
   end.
 Proof. vm_compute. repeat split; reflexivity. Qed.
 
+(* F-C03d: without [no_embedded] the disk-index theorem is false.  Witness: uncompressed index and
+   data files, the four pairs "a" -> 01, ("b" ++ IMAGE') -> 02, "c" -> 03, "d" -> 04, where IMAGE' is
+   the complete record image, as it stands in an index file, of the index entry (key "zzzz",
+   value offset 8, checksum 0).  The index file then has an acceptable position (48) inside the key of
+   its second record; the table opens (offset 8 is a valid data record and checksum 0 is not
+   verified), but the key "c" is reported absent, Get "c" fails with NotFound, and the full scan
+   delivers the unwritten key "zzzz" and ends with an error. *)
+Definition emb_zkey : bytes := [0x7a; 0x7a; 0x7a; 0x7a].                       (* "zzzz" *)
+Definition emb_image' : bytes := ienc id_codec (emb_zkey, 8, 0).
+Definition emb_bkey : bytes := [0x62] ++ emb_image'.                           (* "b" ++ IMAGE' *)
+Definition emb_kvs : tpairs :=
+  [([0x61], Some [1]); (emb_bkey, Some [2]); ([0x63], Some [3]); ([0x64], Some [4])].
+
+Example emb_image'_bytes :
+  emb_image' = [0x91; 0x8d; 0x4c; 0; 8; 0; 0xe0; 0xa3; 0xed; 0xe2; 0x0a;
+                0x0a; 4; 0x7a; 0x7a; 0x7a; 0x7a; 0x10; 8].
+Proof. vm_compute. reflexivity. Qed.
+
+(* the index file has one acceptable position more than it has records *)
+Example emb_index_positions :
+  starts id_codec (index_recs id_codec emb_kvs) 8 = [8; 34; 79; 105]
+  /\ lenN (tf_index (write_table id_codec id_codec emb_kvs)) = 131
+  /\ filter (acceptable id_codec (tf_index (write_table id_codec id_codec emb_kvs))) (map N.of_nat (seq 0 132))
+     = [8; 34; 48; 79; 105].
+Proof. vm_compute. repeat split; reflexivity. Qed.
+
+(* the concrete wrong answers, for the scan windows 4, 16 and 4096 *)
+Example disk_index_embedded_answers :
+  Forall (fun sl =>
+    match open_table (LDisk sl) (write_table id_codec id_codec emb_kvs) id_codec id_codec with
+    | Ok r =>
+        rd_contains r [0x63] = Ok false /\ rd_get r [0x63] = Err NotFound
+        /\ rd_contains r [0x61] = Ok true /\ rd_contains r emb_bkey = Ok true /\ rd_contains r [0x64] = Ok true
+        /\ rd_contains r emb_zkey = Ok false
+        /\ rd_scan r = ([([0x61], Some [1]); (emb_bkey, Some [2]); (emb_zkey, Some [3]); ([0x63], Some [4])], Some EOF)
+    | Err _ => False
+    end) [4; 16; 4096].
+Proof.
+  apply Forall_cons; [vm_compute; repeat split; reflexivity|].
+  apply Forall_cons; [vm_compute; repeat split; reflexivity|].
+  apply Forall_cons; [vm_compute; repeat split; reflexivity|].
+  apply Forall_nil.
+Qed.
+
+Theorem disk_index_embedded_refuted :
+  exists (ci cd : codec) (sl : N) (kvs : tpairs),
+    (forall x, decomp ci (comp ci x) = Ok x) /\ (forall x, decomp cd (comp cd x) = Ok x)
+    /\ ctype ci <= 3 /\ ctype cd <= 3
+    /\ 4 <= sl
+    /\ psorted kvs /\ Forall (pair_ok ci cd) kvs /\ Forall val_ok kvs /\ file_ok cd kvs
+    /\ ~ no_embedded ci cd kvs
+    /\ (exists r, open_table (LDisk sl) (write_table ci cd kvs) ci cd = Ok r)
+    /\ (forall r, open_table (LDisk sl) (write_table ci cd kvs) ci cd = Ok r -> ~ behaves_as_sorted_map r kvs).
+Proof.
+  exists id_codec, id_codec, 4, emb_kvs.
+  split; [intros x; reflexivity|]. split; [intros x; reflexivity|].
+  split; [vm_compute; discriminate|]. split; [vm_compute; discriminate|].
+  split; [vm_compute; discriminate|].
+  split.
+  { unfold psorted, emb_kvs.
+    repeat (apply SSorted_cons || apply SSorted_nil || apply Forall_cons || apply Forall_nil);
+      vm_compute; reflexivity. }
+  split.
+  { assert (Hk : forall kv, lenN (fst kv) <= 20 -> lenN (payload_of (snd kv)) <= 1 -> pair_ok id_codec id_codec kv).
+    { intros kv Hk Hv. unfold pair_ok. cbn [comp id_codec].
+      split; [|split; [|split]].
+      - apply N.le_lt_trans with (1 := Hk). vm_compute. reflexivity.
+      - apply N.le_lt_trans with (1 := Hv). vm_compute. reflexivity.
+      - apply N.le_lt_trans with (1 := Hv). vm_compute. reflexivity.
+      - intros off crc _ _. pose proof (pb_index_entry_len (fst kv) off crc) as Hl.
+        apply N.le_lt_trans with (1 := Hl).
+        apply N.le_lt_trans with (m := 20 + 60); [apply N.add_le_mono_r; exact Hk|].
+        vm_compute. reflexivity. }
+    unfold emb_kvs. repeat (apply Forall_cons || apply Forall_nil); apply Hk; vm_compute; discriminate. }
+  split.
+  { unfold emb_kvs, val_ok. cbn [snd payload_of].
+    repeat (apply Forall_cons || apply Forall_nil); vm_compute; reflexivity. }
+  split; [vm_compute; reflexivity|].
+  split.
+  { intros Hne. specialize (Hne 48).
+    assert (Ha : acceptable id_codec (tf_index (write_table id_codec id_codec emb_kvs)) 48 = true)
+      by (vm_compute; reflexivity).
+    apply Hne in Ha.
+    replace (starts id_codec (index_recs id_codec emb_kvs) 8) with [8; 34; 79; 105] in Ha
+      by (vm_compute; reflexivity).
+    destruct Ha as [H|[H|[H|[H|[]]]]]; discriminate H. }
+  assert (E : match open_table (LDisk 4) (write_table id_codec id_codec emb_kvs) id_codec id_codec with
+              | Ok r => rd_contains r [0x63]
+              | Err e => Err e
+              end = Ok false) by (vm_compute; reflexivity).
+  split.
+  { destruct (open_table (LDisk 4) (write_table id_codec id_codec emb_kvs) id_codec id_codec) as [r|e];
+      [exists r; reflexivity | discriminate E]. }
+  intros r Hopen [Hc _]. rewrite Hopen in E.
+  specialize (Hc [0x63]). rewrite E in Hc.
+  assert (Hs : spec_contains emb_kvs [0x63] = true) by (vm_compute; reflexivity).
+  rewrite Hs in Hc. discriminate Hc.
+Qed.
+
 Print Assumptions table_is_sorted_map_disk.
 Print Assumptions disk_example.
+Print Assumptions disk_index_embedded_refuted.
